@@ -234,6 +234,57 @@ func c15TextNamedLikeGeneratedCase(textFirst bool) *Case {
 	return cs
 }
 
+// c15SpelledNamesCase: top-level names spelled like generated labels of
+// other (absent) statements - a numeric suffix, _Text_<n>, _Movement_<n> -
+// get the scope their modifier / default says, like any other name.
+func c15SpelledNamesCase(scope string) *Case {
+	atoms := &AtomTable{Coded: true}
+	cmd := atoms.New(ClsPlainCmd, "cmd", "")
+	mod := ""
+	if scope != "" {
+		mod = "(" + scope + ")"
+	}
+	names := map[string]string{"script": "Route101_EventScript_2", "script2": "Foo_0", "text": "Sign_Text_3", "movement": "Rival_Movement_0", "mart": "Shop_12", "mapscripts": "Town_MapScripts_1"}
+	src := fmt.Sprintf("script%s %s {\n  %s\n}\nscript%s %s {\n  %s\n}\ntext%s %s {\n  \"abc$\"\n}\nmovement%s %s {\n  walk_up\n}\nmart%s %s {\n  ITEM_X\n}\nmapscripts%s %s {\n  MAP_TYPE_A: SomeTarget\n}",
+		mod, names["script"], cmd.Placeholder(), mod, names["script2"], cmd.Placeholder(), mod, names["text"], mod, names["movement"], mod, names["mart"], mod, names["mapscripts"])
+	dflt := map[string]bool{"script": true, "script2": true, "text": true, "movement": false, "mart": false, "mapscripts": true}
+	prog := &Program{Atoms: atoms, Tops: []interface{}{&TopRaw{Text: src}}}
+	cs := &Case{Name: "c15/names-spelled-like-generated-labels/scope=" + scope, Prog: prog, Variants: optVariants, NonTrivial: true, Shape: c15Shape{Scopes: map[string]string{"all": scope + " (names with numeric / _Text_n / _Movement_n suffixes)"}}}
+	cs.Oracle = func(x *OracleCtx) *Violation {
+		for _, v := range x.Case.Variants {
+			res := x.Res[v.Name]
+			if res.Err.Panic != "" || res.Err.IsErr {
+				return &Violation{Sub: "accept", Msg: "the program was rejected: " + interp.ToString(res.Err.Msg) + res.Err.Panic}
+			}
+			seen := map[string]int{}
+			for _, al := range ParseAsm(res.Out) {
+				if al.Kind != "label" {
+					continue
+				}
+				for kind, nm := range names {
+					if sameValue(x.C, al.Name, nm) == 1 {
+						seen[kind]++
+						want := dflt[kind]
+						if scope != "" {
+							want = scope == "global"
+						}
+						if al.Global != want {
+							return &Violation{Sub: "scope", Msg: fmt.Sprintf("variant %s: %s %s is emitted with global=%v, expected global=%v", v.Name, strings.TrimSuffix(kind, "2"), nm, al.Global, want)}
+						}
+					}
+				}
+			}
+			for kind, nm := range names {
+				if seen[kind] != 1 {
+					return &Violation{Sub: "scope", Msg: fmt.Sprintf("variant %s: %s is defined %d times", v.Name, nm, seen[kind])}
+				}
+			}
+		}
+		return nil
+	}
+	return cs
+}
+
 // RunC15 is the check of property C15.
 func RunC15(env *Env, rep *Report) {
 	kinds := []string{"script", "text", "movement", "mart", "mapscripts"}
@@ -272,6 +323,9 @@ func RunC15(env *Env, rep *Report) {
 		}
 	}
 	cases = append(cases, c15TextNamedLikeGeneratedCase(false), c15TextNamedLikeGeneratedCase(true))
+	for _, sc := range []string{"", "global", "local"} {
+		cases = append(cases, c15SpelledNamesCase(sc))
+	}
 	rep.Technique = "symbolic execution of the real parser and emitter (go/ssa) with all names symbolic; structural assertions on the label definition lines of the output rope"
 	rep.Explanation = "Bounded symbolic verification of a finite property. One program containing every top-level statement kind (script with unmarked, (global) and (local) labels inside branches and loops, inline text, moves(), a script with an empty body, text, movement, mart, mapscripts with plain, inline - also empty - and table entries with plain, inline and empty inline rows) is compiled by symbolic execution for every listed combination of scope modifiers, with all names symbolic and -optimize on and off. Every label definition line of the output must be one of the expected entities with the expected '::' / ':' or a generated sub-label with ':'; every expected entity must be defined exactly once. The space {statement kind} x {no modifier, global, local} x {generated label kinds} is covered completely by the thorough tier (3^5 combinations) and one-at-a-time by the quick tier."
 	rep.Bounds = map[string]interface{}{"combinations": len(cases), "program": "one fixed program shape containing every label-producing construct"}
